@@ -157,9 +157,11 @@ func genDecoration(r *rand.Rand, it *Item, scale int) {
 	}
 	it.Sp = r.Intn(2)
 	if it.Kind == "leaf" {
-		// open finding F-C12-fixed-height-block-bottom-decoration-overflows: a fixed-height block whose
-		// content fits and whose bottom padding/border does not is kept on the page, and the boxes
-		// around it are then pushed or split in ways that depend on that overflow.  Bottom decorations
+		// finding F-C12-fixed-height-block-bottom-decoration-overflows (repaired by ad4ef96 for the
+		// pattern of table 3) and open finding F-C12-leaf-bottom-decoration-in-random-flows: with
+		// bottom padding/border on fixed-height blocks inside random flows, fragments made by
+		// findEarlierPageBreak still keep a stale height (split-fragment-stale-bottom) and pages end
+		// early (15–22 documents per quick run when this restriction is lifted, 2026-09-27).  Bottom decorations
 		// of fixed-height blocks are only generated by the deco table (arrangement 7), where the
 		// pattern is recognised; random flows keep the top ones.
 		it.PadB, it.BorB = 0, 0
